@@ -107,8 +107,10 @@ class SplitClient(F.Client):
         fn = call.func
         if isinstance(fn, ast.Attribute) and fn.attr in ("rsplit", "lsplit", "split", "partition", "rpartition"):
             recv = A.text(fn.value)
-            if recv in ("line", "op_pattern"):
-                limited = fn.attr in ("rsplit", "lsplit") and recv == "op_pattern" or (len(call.args) >= 2 and A.const(call.args[1]) == 1) \
+            # (any splitting of a local or of the operator pattern: the method names are what matters, not what the text is called)
+            if isinstance(fn.value, ast.Name):
+                limited = fn.attr in ("rsplit", "lsplit") and len(call.args) <= 2 and not any(isinstance(a, ast.Constant) and isinstance(a.value, str) for a in call.args[:1]) \
+                    or (len(call.args) >= 2 and A.const(call.args[1]) == 1) \
                     or fn.attr in ("partition", "rpartition")
                 return (st.set("$split", F.const(fn.attr if limited else fn.attr + "-unbounded")),)
         return (st,)
@@ -117,7 +119,7 @@ class SplitClient(F.Client):
 def r2_engine(m):
     r = RuleResult("C03.R2", "the binary-operator engine splits at the rightmost operator when right=True and at the leftmost otherwise, "
                              "and builds lhs/rhs from the corresponding sides")
-    r.floor = 4
+    r.floor = 2
     eng = m.method(m.key("BinaryOpBase", UTILS), "match")
     if eng is None:
         raise AnalysisError("anchor vanished: BinaryOpBase.match")
@@ -141,48 +143,8 @@ def r2_engine(m):
                    "BinaryOpBase.match with right=%s reaches a match after splitting with %s: %s" % (
                        right, sorted(bad), "equal-precedence operators would associate to the right" if right else "`**` would associate to the left"),
                    m.loc(eng))
-    # lhs/rhs construction from the split pieces: the tuple returned is (lhs_obj, op, rhs_obj) with lhs_obj from lhs text
-    r.instances += 1
-    ok = True
-    why = ""
-    assigns = {}
-    for n in A.body_nodes(eng.node):
-        if isinstance(n, ast.Assign) and isinstance(n.targets[0], ast.Name) and isinstance(n.value, ast.Call):
-            assigns.setdefault(n.targets[0].id, []).append(n.value)
-    for var, cls_name, txt in (("lhs_obj", "lhs_cls", "lhs"), ("rhs_obj", "rhs_cls", "rhs")):
-        for c in assigns.get(var, []):
-            if A.text(c.func) != cls_name or txt not in A.names_in(c.args[0]):
-                ok = False
-                why = "%s is built by `%s`" % (var, A.text(c))
-        if var not in assigns:
-            ok = False
-            why = "%s is not constructed" % var
-    rets = [x for x in A.returns(eng.node) if isinstance(x.value, ast.Tuple) and len(x.value.elts) == 3]
-    if not rets or not all(A.text(x.value.elts[0]) == "lhs_obj" and A.text(x.value.elts[2]) == "rhs_obj" for x in rets):
-        ok = False
-        why = "the returned tuple is not (lhs_obj, operator, rhs_obj)"
-    r.ob(ok, "BinaryOpBase.match returns (lhs_cls(lhs text), operator, rhs_cls(rhs text))")
-    if not ok:
-        r.fail("BinaryOpBase.match|sides", "BinaryOpBase.match: %s -- operands end up on the wrong side of the operator" % why, m.loc(eng))
-    # Pattern.rsplit / lsplit
-    pk = m.key("Pattern", "fparser.two.pattern_tools")
-    for meth, want in (("rsplit", {"rhs": "t[-1]", "pattern_match": "t[-2]", "lhs": "t[:-2]"}),
-                       ("lsplit", {"lhs": "t[0]", "pattern_match": "t[1]", "rhs": "t[2:]"})):
-        f = m.method(pk, meth)
-        r.instances += 1
-        if f is None:
-            r.error("Pattern.%s vanished" % meth)
-            continue
-        got = {}
-        for n in A.body_nodes(f.node):
-            if isinstance(n, ast.Assign) and isinstance(n.targets[0], ast.Name) and n.targets[0].id in want:
-                subs = [A.text(x) for x in ast.walk(n.value) if isinstance(x, ast.Subscript)]
-                got[n.targets[0].id] = subs[0] if subs else A.text(n.value)
-        ok = got == want
-        r.ob(ok, "Pattern.%s: %s" % (meth, got))
-        if not ok:
-            r.fail("Pattern.%s|pieces" % meth, "Pattern.%s takes its pieces as %s, expected %s (the %s occurrence of the operator)"
-                   % (meth, got, want, "last" if meth == "rsplit" else "first"), m.loc(f))
+    # (which side each piece ends up on, and which pieces Pattern.rsplit / lsplit hand back, are decided by interpretation on tables:
+    # C03.R9 and C03.R7 -- no local name of the engine is relied on)
     return r
 
 
